@@ -118,3 +118,106 @@ PROPS["C10"] = {
     "assumptions": ["the model of magic.rs/lookup.rs (ray-walk loops, table build fold, lookup arithmetic) is tied to the code by the exhaustive table dump on every run"],
     "finding_key": lambda sf: None,
 }
+
+# ------------------------------------------------------------------------------------------------ search / engine properties
+import blackbox  # noqa: E402
+
+SEARCH_TB = [KERNEL, AXIOMS, TIE, EXTRACT,
+             "the search model is generic over an abstract game; its chess instance plugs in the models of C01/C02/C14/C11",
+             "std HashMap / Vec / stable sort (sort_by_cached_key ~ List.mergeSort) modelled, not verified",
+             "Instant::now()/elapsed() modelled as a deadline oracle over poll indices / node counts (every monotone clock); quiescence termination and stack depth are assumptions (fuel)"]
+HASHINJ = "HashInj: no Zobrist collision among the positions a run visits (hypothesis of the theorems; probability remark in DESIGN.md C11)"
+
+PROPS["C01"]["level"] = "proof"
+PROPS["C01"]["prop_modules"] = ["Flounder.Props.C01"]
+PROPS["C01"].pop("explanation", None)
+PROPS["C01"]["assumptions"] = ["Spec/Chess.lean states the FIDE rules correctly (it is also run against the engine on every check)", "BitboardIterator = ascending set bits (proved equal to the lsb loop model in Lemmas/BitIter)"]
+PROPS["C17"]["level"] = "proof"
+PROPS["C17"].pop("explanation", None)
+PROPS["C17"]["assumptions"] = ["as C01/C02"]
+
+PROPS["C05"] = {
+    "level": "proof",
+    "budget": {"quick": [("c05", 60), ("tie", 25)], "thorough": [("c05", 4000), ("tie", 1500)], "search": [("c05", 8000), ("tie", 3000)]},
+    "rule": "positions with a measured finite quiescence tree (small-material families + play-outs, accepted only if every successor to the search depth has a quiescence tree under a node cap; reject rate printed): fresh searcher, iterative deepening to depth 1..3, score (won/lost beyond the window) and returned move compared with plain minimax Spec.V computed by the Lean spec; quiescence value vs Spec.Q; plus the strict tie of the search model: full result incl. node counts, poll counts, reuse counters and a digest of the whole transposition table after every (possibly interrupted) search, and order_moves/order_captures outputs",
+    "trusted_base": SEARCH_TB + [HASHINJ],
+    "assumptions": [HASHINJ, "QFinite (the quiescence tree of every leaf is finite) — hypothesis of the theorems, measured by the generator", "no record cached by a deeper search was reused (instrumented per run: deeper=0)"],
+    "finding_key": lambda sf: None,
+    "timeout": 3000,
+}
+PROPS["C06"] = {
+    "level": "proof",
+    "budget": {"quick": [("c06", 12)], "thorough": [("c06", 800)], "search": [("c06", 1600)]},
+    "rule": "for small-tree positions: a deadline at EVERY node count 1..total (exhaustive when the completed search has <= 120 nodes, sampled otherwise), expressed both as node budget and as poll index; 1-3 interrupted searches, then every record left in the table for the root and its successors audited against minimax (s.ttclaim), a later completed search judged against minimax (only when no deeper record was reused), and the repetition stack length compared (rep=)",
+    "trusted_base": SEARCH_TB + [HASHINJ],
+    "assumptions": [HASHINJ, "QFinite", "the wall clock is abstracted to 'some poll is the first to return true' (every monotone clock is such an oracle)"],
+    "finding_key": lambda sf: None,
+    "timeout": 3000,
+}
+PROPS["C07"] = {
+    "level": "proof",
+    "budget": {"quick": [("c07", 12)], "thorough": [("c07", 800)], "search": [("c07", 1600)]},
+    "custom": [blackbox.step_latency],
+    "rule": "as C06 (deadline at every node count / poll index): the hook counter 'nodes entered after should_stop() first returned true' must be 0 (theorem no_new_work_after_stop) and poll counts must match the model; black-box: go movetime T on 5 positions incl. quiescence-explosive ones (16 pawns on the 7th ranks, 8 queens) must answer within T + 400 ms (observed, not proved)",
+    "trusted_base": SEARCH_TB,
+    "assumptions": ["the wall-clock cost of the at most (depth + quiescence depth) unwinding steps and of one in-flight node is observed black-box, not proved"],
+    "finding_key": lambda sf: None,
+    "timeout": 3000,
+}
+PROPS["C08"] = {
+    "level": "other",
+    "budget": {"quick": [("c08", 25)], "thorough": [("c08", 1500)], "search": [("c08", 3000)]},
+    "rule": "generated positions containing a mate in one (play-outs + heavy-piece small positions, filtered): fresh searcher at depths 1..4, the answer judged by the executable rules (must mate); positions with both mate-allowing and safe moves at depths 2..3 (answer must be safe), incl. positions with a single safe move",
+    "explanation": "FULL STATEMENTS MateInOnePlayed / AvoidableMateAvoided are stated over the abstract game (Props/C08.lean) together with the score-window lemmas; their derivation from the C05 contract is open. Decided per run by the correspondence: implementation vs model (tie) and implementation's move judged by the Lean rules spec.",
+    "trusted_base": SEARCH_TB + [HASHINJ],
+    "assumptions": ["the two full statements are not yet closed as theorems"],
+    "finding_key": lambda sf: None,
+    "timeout": 3000,
+}
+PROPS["C03"] = {
+    "level": "proof",
+    "budget": {"quick": [("c03", 15)], "thorough": [("c03", 1500)], "search": [("c03", 3000)]},
+    "custom": [blackbox.step_transcripts, blackbox.step_timed],
+    "rule": "in-process: after 0-3 earlier (possibly interrupted) searches on other positions, the position is searched with a deadline at every early poll (0 = zero budget), sampled later polls/node counts and no deadline; every answer judged by the Lean rules spec (legal; 'no move' only without legal moves); mate/stalemate positions. black-box: generated UCI scripts on the real binary, one bestmove per go, legal by the spec; real clocks (movetime 0/1/5/30, clocks around the 5 s reserve)",
+    "trusted_base": SEARCH_TB + [HASHINJ],
+    "assumptions": [HASHINJ, "termination of an UNLIMITED search on positions with exploding quiescence is not claimed (the engine itself does not terminate quickly there)"],
+    "finding_key": lambda sf: None,
+    "timeout": 3000,
+}
+PROPS["C04"] = {
+    "level": "proof",
+    "prop_modules": ["Flounder.Props.C04", "Flounder.Props.C04Gen"],
+    "budget": {"quick": [("c04", 150)], "thorough": [("c04", 20000)], "search": [("c04", 40000)]},
+    "rule": "1-3 position commands per engine (startpos / FEN of corpus and generated valid positions, counters from {0,1,49,99,100,150} x {1,2,49,255,256,300,5949,65535}, irregular spacing), each followed by a random legal game (0-200 plies, all move kinds, all promotion pieces) written in UCI text by an independent printer; the engine's board after the command vs the model vs the fold of Spec.play; distinct = distinct command lines",
+    "trusted_base": [KERNEL, AXIOMS, TIE, EXTRACT, "str::split_whitespace / split / parse modelled over List Char (ASCII white space)", "harness FEN/UCI printers generate the inputs"],
+    "assumptions": ["FEN counters below 65536 (the widened field type, re-extracted from fen.rs)"],
+    "finding_key": lambda sf: None,
+}
+PROPS["C09"] = {
+    "level": "proof",
+    "budget": {"quick": [("c09", 150)], "thorough": [("c09", 20000)], "search": [("c09", 40000)]},
+    "rule": "histories with repetitions: games biased towards shuffling pieces back and forth (0/1/2/3 earlier occurrences of each candidate successor), several position commands in a row; after each command every successor of the current position is asked 'draw by repetition?' (hook verif_is_repetition_draw on the engine's own searcher) vs model vs a spec that counts positions in the history given with the LAST position command",
+    "trusted_base": [KERNEL, AXIOMS, TIE, HASHINJ],
+    "assumptions": [HASHINJ, "results cached before the history existed are outside the property (as stated in it)"],
+    "finding_key": lambda sf: None,
+}
+PROPS["C13"] = {
+    "level": "other",
+    "budget": {"quick": [("tie", 25)], "thorough": [("tie", 1500)], "search": [("tie", 3000)]},
+    "custom": [blackbox.step_transcripts, blackbox.step_newgame],
+    "rule": "black-box: every generated script is run in 3 fresh processes of the real binary (3 independent key draws): transcripts (scores, node counts, pv, bestmove; time/nps removed) must be identical and equal to the Lean model's transcript computed under the model's own keys; prefix + ucinewgame + suffix must answer the suffix exactly like a fresh process. in-process: model vs engine under the engine's real drawn keys incl. node counts and TT digest",
+    "explanation": "Machine-checked: ucinewgame resets the engine model to its initial state (ucinewgame_is_fresh/_forgets), the transcript is a function of script and key draws; the key-independence simulation theorem (search_key_independent) is in Props/C13.lean when discharged — see 'theorems'. Until then key independence is decided per run by the multi-process comparison.",
+    "trusted_base": SEARCH_TB + [HASHINJ],
+    "assumptions": [HASHINJ],
+    "finding_key": lambda sf: None,
+    "timeout": 3000,
+}
+PROPS["C16"] = {
+    "level": "proof",
+    "budget": {"quick": [], "thorough": [], "search": []},
+    "custom": [lambda tier, seed, ctx: blackbox.step_transcripts(tier, seed, ctx, flavours=("handshake", "noquit", "mixed"))],
+    "rule": "black-box on the real binary: generated scripts interleaving uci / isready / ucinewgame / unknown words / blank and white-space lines / mixed case / position / go depth n, ending with or without quit (lines after quit must be ignored): stdout must equal the Lean model's transcript, exit status must be 0 both on quit and at end of input (a hang is a timeout = violation)",
+    "trusted_base": [KERNEL, AXIOMS, "Engine.uciLoop models stdin as a finite list of lines followed by end of input, process::exit(0)/return from main as Outcome.exited 0", "process-level facts (exit status, no hang) are observed black-box"],
+    "assumptions": ["read_line returns Ok(0) at end of input (documented behaviour of std)"],
+    "finding_key": lambda sf: None,
+}
